@@ -65,6 +65,8 @@ impl Number {
             let use_grouping = !options.digit_separator.is_empty()
                 && self.0.abs() >= 10.0_f64.powf(threshold - 1.0);
 
+            // num_format only supports separators of up to 8 bytes. Fall back to
+            // no digit grouping (instead of panicking) for longer separators.
             let format = CustomFormat::builder()
                 .grouping(if use_grouping {
                     Grouping::Standard
@@ -74,7 +76,14 @@ impl Number {
                 .minus_sign("-")
                 .separator(&options.digit_separator)
                 .build()
-                .unwrap();
+                .unwrap_or_else(|_| {
+                    CustomFormat::builder()
+                        .grouping(Grouping::Posix)
+                        .minus_sign("-")
+                        .separator("")
+                        .build()
+                        .unwrap()
+                });
 
             // TODO: this is pretty wasteful. formatted numbers should be small enough
             // to fit in a CompactString without first going to the heap
